@@ -40,6 +40,37 @@ GRAMMARS = {
 }
 TYPE = {'a': 'A', 'b': 'B', 'c': '_C'}
 # LALR merges the look-aheads of 'e: _C .' for both contexts: what the parser accepts there depends on the whole stack
+# a merged look-ahead whose reduction chain runs deeper than the point where another terminal is shifted: a refused token
+# leaves reductions behind (feed_token is not atomic), so whatever tries terminals one after the other must start afresh
+# (the order in which the candidates are tried follows the order of the table row: the three terminals take the roles of
+# opener / closer / tail / unit in several ways, under several namings of the rules)
+def _deep_grammars():
+    import itertools
+    out = {}
+    k = 0
+    names = [('x', 'f', 'g', 'e'), ('q', 'm', 'n', 'p'), ('body', 'plain', 'tail', 'unit')]
+    for o1, c1, o2, c2, t, e in itertools.product(['A', 'B', '_C'], repeat=6):
+        if o1 == o2 or c1 == c2 or t in (c1, c2) or len({o1, c1, o2, c2, t, e}) < 3:
+            continue
+        x, f, g, u = names[k % len(names)]
+        out['lalr-merge-deep%d' % k] = ('start: %s %s %s | %s %s %s\n%s: %s | %s\n%s: %s\n%s: %s %s\n%s: %s\nA: "a"\nB: "b"\n_C: "c"\n'
+                                        % (o1, x, c1, o2, x, c2, x, f, g, f, u, g, u, t, u, e), {})
+        k += 1
+    return out
+
+
+def _lalr_ok(g):
+    try:
+        import logging
+        logging.disable(logging.CRITICAL)
+        from lark import Lark
+        Lark(g, parser='lalr', strict=True)
+        return True
+    except Exception:
+        return False
+
+
+_DEEP = _deep_grammars()
 GRAMMARS['lalr-merge'] = ('start: A e A | B e B | e\ne: _C | _C e\nA: "a"\nB: "b"\n_C: "c"\n', {})
 
 
@@ -74,7 +105,7 @@ def replay(job):
     from lark import Lark
     from lark.exceptions import UnexpectedToken, UnexpectedInput
     gname, beh = job
-    gtext, opts = GRAMMARS[gname]
+    gtext, opts = GRAMMARS[gname] if gname in GRAMMARS else _DEEP[gname]
     global _PARSERS
     try:
         _PARSERS
@@ -345,8 +376,8 @@ def judge(cases, ev, rep, tmp, name):
             raise C.MachineryFailure('TraceInteractive violation without VERDICT line')
         for v in sorted(set(tuple(x) for x in res.verdicts)):
             c = chunk[int(v[0]) - 1]
-            rep.violation({'property': PID, 'clause': v[2], 'step': int(v[1]), 'grammar_name': c['grammar'], 'grammar': GRAMMARS[c['grammar']][0],
-                           'options': GRAMMARS[c['grammar']][1], 'behaviour': c['behaviour'], 'observed': c['steps'][int(v[1]) - 1]})
+            rep.violation({'property': PID, 'clause': v[2], 'step': int(v[1]), 'grammar_name': c['grammar'], 'grammar': dict(GRAMMARS, **_DEEP)[c['grammar']][0],
+                           'options': dict(GRAMMARS, **_DEEP)[c['grammar']][1], 'behaviour': c['behaviour'], 'observed': c['steps'][int(v[1]) - 1]})
 
 
 def body(tier, seed, replay_file):
@@ -404,6 +435,17 @@ def body(tier, seed, replay_file):
                     sample = {'grammar': cases[5]['grammar'], 'behaviour': cases[5]['behaviour'], 'last_step': cases[5]['steps'][-1]}
                 judge(cases, ev, rep, tmp, 'forks%d%d_%d' % (H, N, off))
                 del cases, jobs
+        # accepts() after every token sequence up to 3 on the look-ahead-merging grammars (all role assignments)
+        import itertools
+        djobs = []
+        for g in sorted(_DEEP):
+            for n in range(1, 4):
+                for seq in itertools.product('abc', repeat=n):
+                    djobs.append((g, {'ops': [{'h': 1, 'op': 'feed', 't': t, 'new': 0} for t in seq] + [{'h': 1, 'op': 'accepts', 't': '', 'new': 0}], 'hist': {}}))
+        dcases = C.pmap(replay, djobs)
+        ev.count('accepts_sweeps_on_merged_lookahead_grammars', len(dcases))
+        ncases += len(dcases)
+        judge(dcases, ev, rep, tmp, 'deep-accepts')
         # resume_parse
         texts = set()
         for _ in range(C.scale(400 if tier == 'quick' else 4000)):
